@@ -328,5 +328,22 @@ pub fn run(ctx: &Ctx, rep: &mut Report) {
             x.push(build(c, ctx.tier.name()));
         }
     }
+    if ctx.replay.is_none() {
+        // enums without variants have no value to print, but the impl must compile and be usable through Option<X>
+        for (gen, inst) in [("", ""), ("<T: ::core::marker::Copy>", "<u8>")] {
+            for entry in Entry::BOTH {
+                let head = match entry {
+                    Entry::Attr => "#[derive_ex(Debug)]".to_string(),
+                    Entry::Derive => "#[derive(Ex)]\n#[derive_ex(Debug)]".to_string(),
+                };
+                let item = if gen.is_empty() { "pub enum X {}".to_string() } else { format!("pub enum X{gen} {{ #[doc(hidden)] __Never(::core::convert::Infallible, ::core::marker::PhantomData<T>) }}") };
+                let code = format!("use derive_ex::{{derive_ex, Ex}};\n{head}\n{item}\npub fn run() -> String {{ format!(\"{{:?}}\", ::core::option::Option::<X{inst}>::None) }}\n");
+                let mut atoms = BTreeSet::new();
+                atoms.insert(format!("entry={}", entry.name()));
+                atoms.insert("kind=empty-enum".to_string());
+                x.push(XCase { text: format!("{} Debug {item}", entry.name()), code, expected: "None".into(), atoms, nontrivial: true, detail: json!({"kind": "empty-enum", "entry": entry.name(), "item": item}), what: format!("derive_ex(Debug) via {} on `{item}`", entry.name()), inner: 1, symptom: "debug-output-differs-from-std-twin".into(), must_compile: true });
+            }
+        }
+    }
     run_and_compare(rep, "c10", &x);
 }
